@@ -25,4 +25,5 @@ McShapeAt == [c \in CA |-> CASE c = "A" -> 1 [] c = "B" -> 5 [] c = "C" -> 3 [] 
 \* ... the other way round: long first
 McShapeAtB == [c \in CA |-> CASE c = "A" -> 2 [] c = "B" -> 0 [] c = "C" -> 4 [] c = "nU" -> 5 [] c = "nA" -> 1 [] c = "nB" -> 3 [] OTHER -> 0]
 McNoSlots == {}
+McTrue == TRUE
 ====
